@@ -24,7 +24,9 @@ Record case := {
 }.
 
 (* observation: kind 0: (code of cres, 0); kinds 1, 2: (code of hres, number of fs accesses / store changes) *)
-Record obs := { ocode : N; ocount : N }.
+(* odetail: 0 = the reply carries nothing beyond its code (no message text in the TFTP ERROR, no headers or
+   body in an HTTP error reply, the fixed body of the update handler's OK); 1 = it carries something else *)
+Record obs := { ocode : N; ocount : N; odetail : N }.
 
 Definition cres_code (r : cres) : N :=
   match r with CFalse => 0 | CTrue => 1 | CValueError => 2 | CTypeError => 3 end.
@@ -41,18 +43,18 @@ Definition P6 (c : case) := tab_pton (p6tab c).
 
 Definition run_req (c : case) : obs :=
   match ckind c with
-  | KContains => {| ocode := cres_code (contains (P4 c) (P6 c) (craise c) (centries c) (cclient c)); ocount := 0 |}
+  | KContains => {| ocode := cres_code (contains (P4 c) (P6 c) (craise c) (centries c) (cclient c)); ocount := 0; odetail := 0 |}
   | KFile => let r := file_handle (P4 c) (P6 c) (fcfg_of c) (fenv_of c) (cclient c) in
-             {| ocode := hres_code (fst r); ocount := snd r |}
+             {| ocode := hres_code (fst r); ocount := snd r; odetail := 0 |}
   | KUpdate => let r := update_handle_f (P4 c) (P6 c) (cbad_body c) (cstore_fault c) (ckey c) (centries c) (cgetd c) (cclient c) in
-               {| ocode := hres_code (fst r); ocount := snd r |}
+               {| ocode := hres_code (fst r); ocount := snd r; odetail := 0 |}
   end.
 
 (* the HTTP wrappers refuse other methods before anything else happens *)
 Definition method_refused (c : case) : bool :=
   match ckind c with KContains => false | _ => negb (cmethod_ok c) end.
 Definition run_model (c : case) : obs :=
-  if method_refused c then {| ocode := 6; ocount := 0 |} else run_req c.
+  if method_refused c then {| ocode := 6; ocount := 0; odetail := 0 |} else run_req c.
 
 (* ---- the property as a checker ---- *)
 Definition chk (b : bool) (name : string) : list string := if b then [] else [name].
@@ -85,7 +87,7 @@ Definition granted_code (c : case) (code : N) : bool :=
   | KUpdate => (code =? 4) || (code =? 5)       (* applied, or the body was looked at *)
   end.
 
-Definition holds_req (c : case) (o : obs) : list string :=
+Definition holds_req0 (c : case) (o : obs) : list string :=
   match ckind c with
   | KContains =>
       chk (implb (negb (craise c) && cwell_typed c) (ocode o =? (if cmember c then 1 else 0))) "membership_spec" ++
@@ -111,8 +113,17 @@ Definition holds_req (c : case) (o : obs) : list string :=
       end
   end.
 
+(* what a non-member receives carries nothing beyond the code: no text, header or body in which the
+   existence of the system, its id, its data or the file could show *)
+Definition detail_clause (c : case) (o : obs) : list string :=
+  match ckind c with
+  | KContains => []
+  | _ => chk (implb (crestricted c && negb (cmember c)) (odetail o =? 0)) "no_leak_reply_detail"
+  end.
+Definition holds_req (c : case) (o : obs) : list string := holds_req0 c o ++ detail_clause c o.
+
 Definition holds (c : case) (o : obs) : list string :=
-  if method_refused c then chk ((ocode o =? 6) && (ocount o =? 0)) "method_refused_before_anything"
+  if method_refused c then chk ((ocode o =? 6) && (ocount o =? 0) && (odetail o =? 0)) "method_refused_before_anything"
   else holds_req c o.
 
 (* ---- validity: oracle tables with the libc length facts; reference agrees with the specification ---- *)
@@ -167,7 +178,7 @@ Definition nz (z : Z) : bool := negb (z =? 0)%Z.
 
 Definition decode (x : sx) : option (case * obs) :=
   match x with
-  | L [I k; I r; ents; clx; I key; I a; I nr; I tp; I lk; I fd; gd; I f; I mok; I bb; I sf; t4; t6; rf; L [I oc; I on]] =>
+  | L [I k; I r; ents; clx; I key; I a; I nr; I tp; I lk; I fd; gd; I f; I mok; I bb; I sf; t4; t6; rf; L [I oc; I on; I od]] =>
       obind (asStr clx) (fun cl => obind (dec_kind k) (fun k => obind (asListOf dec_entry ents) (fun ents =>
       obind (dec_act a) (fun a => obind (dec_find fd) (fun fd => obind (dec_getd gd) (fun gd =>
       obind (dec_fs f) (fun f => obind (asListOf dec_pent t4) (fun t4 => obind (asListOf dec_pent t6) (fun t6 =>
@@ -176,11 +187,11 @@ Definition decode (x : sx) : option (case * obs) :=
                cnores := if nz nr then NRContinue else NRNotFound; ctemplate := nz tp; clookup := nz lk;
                cfind := fd; cgetd := gd; cfs := f; cmethod_ok := nz mok; cbad_body := nz bb; cstore_fault := nz sf;
                p4tab := t4; p6tab := t6; cref := rf |},
-            {| ocode := Z.to_N oc; ocount := Z.to_N on |})))))))))))
+            {| ocode := Z.to_N oc; ocount := Z.to_N on; odetail := Z.to_N od |})))))))))))
   | _ => None
   end.
 
-Definition enc_obs (o : obs) : sx := L [sxN (ocode o); sxN (ocount o)].
+Definition enc_obs (o : obs) : sx := L [sxN (ocode o); sxN (ocount o); sxN (odetail o)].
 
 (* ---- histories: a sequence of requests handled by ONE long-lived handler object ----
    The modelled handlers keep no state between requests (their result is a function of the
